@@ -110,6 +110,12 @@ def run_harness(binp, ops_path, out_path, op_timeout=60.0):
         outcome = "timeout" if timed_out else "abort"
         answers[inflight] = {"outcome": outcome, "rc": p.returncode, "stderr": err[-300:]}
         crashes.append({"line": inflight, "rc": p.returncode, "kind": outcome, "stderr": err[-300:]})
+        if timed_out:
+            # a hang is established: later hangs get a shorter leash, and after three of them the remaining scenarios are not run
+            # (each would cost a full time-out; the operations already answered decide the verdict)
+            op_timeout = min(op_timeout, 15.0)
+            if sum(1 for c in crashes if c["kind"] == "timeout") >= 3:
+                break
         nxt = [s for s in scen_starts if s > inflight]
         if not nxt:
             break
